@@ -494,8 +494,16 @@ func checkC01(c *Ctx) {
 		c.addInt("distinct_nontrivial", acc)
 		c.cov("accepted_token_sequences_with_tree", acc)
 	}
+	// the two writings of one tree over VALUES of every kind: the operator matrix and the chains of FamOps, each program
+	// written with the parentheses the grammar needs and with all it allows; the two must behave alike
+	oout := filepath.Join(c.Work, "ops.ndjson")
+	if res := c.runTLC(TLCJob{Module: "FamOps", Cfg: "FamOps_quick.cfg", OutFile: oout, Timeout: 40 * time.Minute}); res.Err == "" {
+		n := c.parenPairs(oout, 2)
+		c.addInt("traces_validated_against_impl", n)
+		c.addInt("evaluations", n)
+	}
 	c.cov("exhaustive", true)
-	c.cov("rule", "FamTrees: every depth-2 tree over all 21 binary-like operators (both nestings), all prefix and postfix combinations, chains, (thorough: every depth-3 tree over one representative per ladder level, 5 shapes), every nesting of if / if-else / while / for / block to depth 2 (3) and declaration lists; each written minimally and fully parenthesised, parsed by the real parser and compared node by node (Grouping included), and both writings of each expression evaluated (echo) and compared; FamPrefix: every accepted token sequence of <= MaxLen tokens with the tree the recogniser builds (checked against Canon and Yield inside TLC)")
+	c.cov("rule", "FamOps (operators x values of every kind, chains): minimal against full parenthesisation of the same tree, run and compared with each other; FamTrees: every depth-2 tree over all 21 binary-like operators (both nestings), all prefix and postfix combinations, chains, (thorough: every depth-3 tree over one representative per ladder level, 5 shapes), every nesting of if / if-else / while / for / block to depth 2 (3) and declaration lists; each written minimally and fully parenthesised, parsed by the real parser and compared node by node (Grouping included), and both writings of each expression evaluated (echo) and compared; FamPrefix: every accepted token sequence of <= MaxLen tokens with the tree the recogniser builds (checked against Canon and Yield inside TLC)")
 	c.Ev.Assumptions = []string{"BornoSyntax (ladder relation Canon, Yield, MinParen, FullParen) and BornoGrammar (predictive recogniser) are two independent formulations that TLC checks against each other"}
 }
 
@@ -729,6 +737,72 @@ func (c *Ctx) replaySchemata() int64 {
 		if what != "" {
 			c.violation(c.Prop+"|schema|"+strings.SplitN(s.name, "-", 2)[0]+"|"+what, s.name, map[string]interface{}{"mode": "parse", "src": clip(s.src, 400), "detail": what,
 				"observed": map[string]interface{}{"events": r.Events, "panic": clip(r.Panic, 300), "crash": clip(r.Crash, 300)}})
+		}
+	})
+	return n
+}
+
+// parenPairs: every every-th record of a family that carries both parenthesisations is run in both writings; stdout, the
+// kind and line of the first diagnostic and the outcome must be the same (no reference to the specification's values:
+// this is the metamorphic half of C01).
+func (c *Ctx) parenPairs(path string, every int) int64 {
+	type pair struct {
+		rec  *SemRec
+		a, b *Result
+	}
+	pairs := map[int]*pair{}
+	cases := make(chan *Case, 256)
+	go func() {
+		k := 0
+		forEachLine(path, func(line []byte) error {
+			var rec SemRec
+			if json.Unmarshal(line, &rec) != nil || len(rec.Full) == 0 || rec.Status == "fuel" {
+				return nil
+			}
+			k++
+			if (k+c.Seed)%every != 0 {
+				return nil
+			}
+			s1, e1 := Render(rec.Toks, nil)
+			s2, e2 := Render(rec.Full, nil)
+			if e1 != nil || e2 != nil {
+				return nil
+			}
+			c.Pool.mu.Lock()
+			pairs[k] = &pair{rec: &rec}
+			c.Pool.mu.Unlock()
+			cases <- &Case{ID: 2 * k, Mode: "run", Src: s1, Fuel: 200000}
+			cases <- &Case{ID: 2*k + 1, Mode: "run", Src: s2, Fuel: 200000}
+			return nil
+		})
+		close(cases)
+	}()
+	var n int64
+	c.Pool.Run(cases, func(cs *Case, r *Result) {
+		n++
+		p := pairs[cs.ID/2]
+		if cs.ID%2 == 0 {
+			p.a = r
+		} else {
+			p.b = r
+		}
+		if p.a == nil || p.b == nil {
+			return
+		}
+		delete(pairs, cs.ID/2)
+		sum := func(r *Result) string {
+			d := ""
+			for _, e := range r.Events {
+				if e.E == "diag" {
+					d = fmt.Sprintf("%s@%d:%s", e.Kind, e.Line, kindClass(classifyDiag(e.Msg)))
+					break
+				}
+			}
+			return fmt.Sprintf("out=%q diag=%s panic=%v crash=%v", r.Out, d, r.Panic != "", r.Crash != "")
+		}
+		if sa, sb := sum(p.a), sum(p.b); sa != sb {
+			c.violation("C01|paren-pair|"+p.rec.Cls+"|differs", p.rec.Key, map[string]interface{}{"mode": "run", "src": cs.Src,
+				"detail": fmt.Sprintf("minimal parentheses: %s ; full parentheses: %s", clip(sa, 200), clip(sb, 200))})
 		}
 	})
 	return n
